@@ -28,7 +28,7 @@ ASSUMPTIONS = ["detector model: flag and (not old_flag or sid <= old_sid); first
                "messages are SD notifications with the unicast flag set; session id 0 never sent (C08)"]
 FLOORS = {"quick": {"messages_judged": 20000, "detections_expected": 3000, "fanout_checks": 3000,
                     "single_key_transitions": 156, "two_key_cases": 3 * 13 * 13 * 24, "random_histories": 100, "burst_cases": 13 * 12 * 12 * 3,
-                    "check_received_probe": 20000,
+                    "check_received_probe": 20000, "senders_judged_after_a_crowd_of_other_senders": 12, "crowd_members": 5000,
                     "mesh_scenarios": 100, "mesh_reboot_messages_judged": 6000, "mesh_reboot_detections_expected": 180, "mesh_reboot_fanout_checks": 90}}
 # system-level shards: the mesh workload of pv/mesh.py under this property's boundary monitors (reports of other monitors are dropped)
 MESH = {"want": ("reboot",), "claim": ("mesh:reboot-",),
@@ -179,6 +179,7 @@ def shards(tier, seed):
            dict(shard=3, seed=seed, mode="two", variant="other-port"),
            dict(shard=5, seed=seed, mode="two", variant="other-scope"),
            dict(shard=4, seed=seed, mode="bursts")]
+    out.append(dict(shard=6, seed=seed, mode="crowd", sizes=(300, 1100, 4200) if tier == "quick" else (300, 1100, 4200, 17000, 66000)))
     k = 4 if tier == "quick" else 16
     n = 40 if tier == "quick" else 3000
     out += [dict(shard=10 + i, seed=seed, mode="random", n=n) for i in range(k)]
@@ -240,6 +241,34 @@ def run(spec, ctx):
                             report(ctx, rig.send(k[0], k[1], inp[0], inp[1]), hist)
                             ctx.count("two_key_cases")
                             ctx.case(("two", spec["variant"], s1, s2, which, inp), s1 is not None or s2 is not None)
+        elif spec["mode"] == "crowd":
+            # a busy segment: a few senders are heard, then very many others (every one a first contact, some of them twice),
+            # then the few again - what they sent before still decides; the whole walk is repeated for several sizes
+            for size in spec["sizes"]:
+                victims = [(addr_for(next(fresh), v6=i % 2 == 1), i >= 2) for i in range(4)]
+                before = {}
+                for v, mc in victims:
+                    st = rng.choice(((True, 5), (False, 7), (True, 0xFFFF), (False, 300)))
+                    before[(v, mc)] = st
+                    report(ctx, rig.send(v, mc, st[0], st[1]), [(v, mc, st[0], st[1], False)])
+                for j in range(size):
+                    a = addr_for(next(fresh), v6=j % 3 == 0)
+                    mc = j % 2 == 0
+                    for pr in rig.send(a, mc, True, 1 + j % 3):
+                        ctx.violation(pr[0], dict(detail=pr[1], crowd_size=size, member=j), dict(kind="whole-shard"))
+                    if j % 7 == 0:
+                        for pr in rig.send(a, mc, True, 9):
+                            ctx.violation(pr[0], dict(detail=pr[1], crowd_size=size, member=j), dict(kind="whole-shard"))
+                for n, (v, mc) in enumerate(victims):
+                    st = before[(v, mc)]
+                    inp = ((True, 1), (True, st[1]), (st[0], min(st[1] + 1, 0xFFFF)), (False, 1))[(n + size) % 4]
+                    for pr in rig.send(v, mc, inp[0], inp[1]):
+                        ctx.violation(pr[0], dict(detail=pr[1], crowd_size=size, earlier=st, now=inp,
+                                                  note="between the two messages of this sender, crowd_size other senders were heard"),
+                                      dict(kind="whole-shard"))
+                    ctx.count("senders_judged_after_a_crowd_of_other_senders")
+                ctx.count("crowd_members", size)
+                ctx.case(("crowd", size), True, sample=dict(crowd_size=size, victims=4) if size == spec["sizes"][0] else None)
         elif spec["mode"] == "bursts":
             # all pairs of inputs for one sender delivered in one iteration, after each prior state, on the same channel,
             # on both channels, and packed into one datagram
